@@ -14,7 +14,7 @@ from ..core.common import Outcome, fingerprint
 from ..core.par import run_chunks, mark
 
 ID = 'C17'
-MODULE = 'AiutiVerif.CrossLoop.Props'
+MODULE = 'AiutiVerif.CrossLoop.Progress'
 LEAN_SUBDIRS = ['AiutiVerif/CrossLoop', 'AiutiVerif/Core', 'Driver.lean']
 THEOREMS = [
     'AiutiVerif.CrossLoop.C17_one_runner',
@@ -25,6 +25,10 @@ THEOREMS = [
     'AiutiVerif.CrossLoop.C17_stopped_before_return',
     'AiutiVerif.CrossLoop.C17_completes_partial',
     'AiutiVerif.CrossLoop.C17_counterexample_borrowed_loop_stops',
+    'AiutiVerif.CrossLoop.C17_helpers_never_stuck',
+    'AiutiVerif.CrossLoop.C17_helper_moves_forward',
+    'AiutiVerif.CrossLoop.C17_awaitable_moves_forward',
+    'AiutiVerif.CrossLoop.C17_borrow_returns',
     'AiutiVerif.CrossLoop.inv_step',
 ]
 ASSUMPTIONS = [
